@@ -42,7 +42,7 @@ def main(tier):
         "worst_backward_ratio_plain": st.get("worst_ratio_plain"),
         "worst_backward_ratio_cyclic": st.get("worst_ratio_cyclic"),
         "worst_ulps_diagonal": st.get("worst_ulps_diagonal"),
-        "bounds": "quick n<=10, histories<=3; thorough n<=32,100,1000, histories<=4",
+        "bounds": "quick n<=16, histories<=3; thorough n<=32,100,1000, histories<=4",
         "exhaustive": True,
     }
     return rep.finish(cov, ["the dense long-double reference and the documented matrix layout "
